@@ -151,6 +151,37 @@ for k in range(0, 64):
                       extra_flags=["--unsigned-overflow-check"],
                       doc="complete case split over the power-of-two chunk size (postcondition of get_chunk_size)"))
 
+# ---- the chunk-stealing loop of one worker task (set_value_loop_visitor::operator()(Ts&)) ----
+VIS_GHOSTS = "g_vc_pops, g_vc_calls, g_pops, g_calls, g_vq_seen_empty, g_pending, g_pending_val"
+LOOP_VIS_LOCAL = """
+__CPROVER_assigns(index, %s)
+__CPROVER_loop_invariant(CALLS_MATCH && (g_vq_seen_empty ==> g_vq == WT))
+""" % VIS_GHOSTS
+LOOP_VIS_OUTER = """
+__CPROVER_assigns(offset, index, %s)
+__CPROVER_loop_invariant(1 <= offset && offset <= W && CALLS_MATCH && ((DIST(g_vq) < offset) ==> g_vq_seen_empty))
+""" % VIS_GHOSTS
+LOOP_VIS_STEAL = """
+__CPROVER_assigns(index, %s)
+__CPROVER_loop_invariant(1 <= offset && offset < W && CALLS_MATCH && ((DIST(g_vq) < offset) ==> g_vq_seen_empty))
+""" % VIS_GHOSTS
+UNITS.append(Unit("bulk.loop_visitor", "visitor.c", defines=DT, enforce="visit",
+    lifts={"body": Lift(BULK, r"void operator\(\)\(Ts& ts\) const", rules=[
+        Sub(r"auto& (\w+) = op_state->queues\[([^\]]+)\]\.data_;", r"qref \1 = vx_queue(self->op_state, \2);", "+"),
+        Sub(r"std::optional<std::uint32_t> (\w+);", r"struct opt_u32 \1; \1.has = false; \1.val = nondet_u32();", 1),
+        Sub(r"\b(\w+)\.pop_(left|right)\(\)", r"ciq_pop_\2(\1)", None),
+        Sub(r"\b(\w+)\.empty\(\)", r"ciq_empty(\1)", None),
+        Sub(r"\b(\w+)\.has_value\(\)", r"opt_has(\1)", None),
+        Sub(r"\(\((\w+) = (ciq_pop_\w+\(\w+\))\)\)", r"(opt_has(\1 = \2))", None),
+        Sub(r"\*index\b", "opt_deref(&index)", None),
+        Sub(r"\bindex\.value\(\)", "opt_deref(&index)", None),
+        Call(r"(?<![\w.>])do_work_chunk(?!\s*\(\s*self\b)", "do_work_chunk(self, {0}, {1})", None),
+        Members(["op_state", "task_f"]),
+    ], loops={1: LOOP_VIS_LOCAL, 2: LOOP_VIS_OUTER, 3: LOOP_VIS_STEAL, "count": 3})},
+    funcs=[BULK + ": set_value_loop_visitor::operator()(Ts&)"], min_obligations=20, timeout=300,
+    doc="per worker task: every popped chunk index goes to do_work_chunk exactly once, nothing else does, an optional is only "
+        "read when engaged, and the task returns only after seeing its own and every neighbour's queue empty"))
+
 META = {"trusted_base": [], "assumptions": [], "not_decided": []}
 
 STATIC = [
